@@ -121,9 +121,16 @@ class EqRaises:
     __hash__ = object.__hash__
 
 
+def closed_stream():
+    import io
+    f = io.StringIO('data')
+    f.close()
+    return f
+
+
 VCODES = ['none', 'zero', 'fzero', 'empty_str', 'empty_tuple', 'list',
           'falsy', 'bool_raises', 'eq_true', 'eq_false', 'eq_raises', 'obj',
-          'world', 'ellipsis', 'notimpl', 'weakobj', 'weakobj']
+          'world', 'ellipsis', 'notimpl', 'weakobj', 'weakobj', 'closed']
 FALSY = {'none', 'zero', 'fzero', 'empty_str', 'empty_tuple', 'list',
          'falsy', 'bool_raises'}
 
@@ -279,6 +286,8 @@ class Interp:
                 'eq_true': EqTrue, 'eq_false': EqFalse,
                 'eq_raises': EqRaises, 'obj': object,
                 'weakobj': WeakVal,
+                'closed': closed_stream,    # a resource with a state of
+                                            # its own (closed = True)
                 'ellipsis': lambda: Ellipsis,   # singletons a cache might
                 'notimpl': lambda: NotImplemented,  # use as "nothing yet"
                 'world': d.World, 'via': object,
@@ -963,6 +972,16 @@ class Interp:
             sub = mm.maps.get(name)
             sentinel = object()
             g = root.get(key, sentinel)
+            if path and mm.obj is not None:
+                # a default that happens to be a map lying on the way is a
+                # default like any other
+                g2 = root.get(key, mm.obj)
+                if g2 is not (mm.obj if g is sentinel else g):
+                    self.fail('C11', 'default_vs_keyerror',
+                              f'get({key!r}, <the map at '
+                              f'{SPLIT.join(path)!r}>) does not agree with '
+                              f'get({key!r}, <fresh object>)')
+                self.probes['default_is_a_map_on_the_way'] += 1
             if hid is not None:
                 st = self.h[hid]
                 if g is not st.obj:
